@@ -409,7 +409,14 @@ var lenre = regexp.MustCompile(`a:(\d+)`)
 // doSampleCmd runs the whole `gotree sample` command on a file written in the given format.
 // Item i is the tree (a:<i+1>,b:1,c:1); (same taxa everywhere, so that Nexus accepts the file).
 // bad >= 0: a malformed tree stands at that position (newick only); n == 0: a file without trees.
+// defaultK as `k`: the option -n is not given at all (the command's own default applies; field `k` = "d")
+const defaultK = -1000
+
 func doSampleCmd(c *core.Ctx, format string, k int, replace bool, seed int64, n, bad int, opened bool) {
+	ks := itoa(k)
+	if k == defaultK {
+		ks = "d"
+	}
 	var b strings.Builder
 	for i := 0; i < n; i++ {
 		if i == bad {
@@ -423,7 +430,7 @@ func doSampleCmd(c *core.Ctx, format string, k int, replace bool, seed int64, n,
 	file := c.TmpFile(b.String())
 	sd := strconv.FormatInt(seed, 10)
 	emit := func(bounds, draws []int, class string, res []int) {
-		c.Emit("C20.samplecmd", format, itoa(k), b2s(replace), sd, itoa(n), itoa(bad), b2s(opened),
+		c.Emit("C20.samplecmd", format, ks, b2s(replace), sd, itoa(n), itoa(bad), b2s(opened),
 			core.IntList(bounds), core.IntList(draws), class, core.IntList(res))
 	}
 	if format != "newick" {
@@ -437,6 +444,9 @@ func doSampleCmd(c *core.Ctx, format string, k int, replace bool, seed int64, n,
 		file = file + ".missing"
 	}
 	kk := k
+	if kk == defaultK {
+		kk = 1 // cmd/sample.go: IntVarP(&numtrees, "nbtrees", "n", 1, …)
+	}
 	if kk < 0 {
 		kk = 0
 	}
@@ -445,7 +455,10 @@ func doSampleCmd(c *core.Ctx, format string, k int, replace bool, seed int64, n,
 		script = replScript(kk, n)
 	}
 	draws, _ := replay(seed, script)
-	args := []string{"sample", "-i", file, "-n", itoa(k), "--seed", sd, "--format", format}
+	args := []string{"sample", "-i", file, "--seed", sd, "--format", format}
+	if k != defaultK {
+		args = append(args, "-n", itoa(k))
+	}
 	if replace {
 		args = append(args, "--replace")
 	}
@@ -1345,7 +1358,11 @@ func Replay(c *core.Ctx, lines []string) {
 		case "C20.rotall":
 			doRotAll(c, num64(1), tr(2))
 		case "C20.samplecmd":
-			doSampleCmd(c, at(1), num(2), at(3) == "1", num64(4), num(5), num(6), at(7) == "1")
+			kq := num(2)
+			if at(2) == "d" {
+				kq = defaultK
+			}
+			doSampleCmd(c, at(1), kq, at(3) == "1", num64(4), num(5), num(6), at(7) == "1")
 		case "C20.prunerange":
 			doPruneRange(c, num64(1), tr(2), num(3), at(4) == "1")
 		case "C20.prunefile":
@@ -1393,6 +1410,8 @@ func Replay(c *core.Ctx, lines []string) {
 			}
 		case "C20.utree":
 			doUTree(c, at(1) == "cli", num64(2), num(3), at(4) == "1")
+		case "C20.seedcmd":
+			doSeedCmd(c, at(1))
 		case "C20.fib":
 			doFib(c, s, at(1), num(2), num(3), num64(4))
 		case "C20.marg":
@@ -1674,6 +1693,32 @@ func Run(c *core.Ctx) {
 			case 4:
 				doUTree(c, true, seed(), 3+g.Intn(15), g.Chance(0.5))
 			}
+		}
+		// generator branches the structured generator reaches rarely: nodes of degree 4-6 (at the root and
+		// inside, parent in the middle of the neighbour list), trees whose root is a tip
+		for _, d := range []int{4, 5, 6} {
+			for _, ar := range []bool{true, false} {
+				t, p := rotTree(d, ar)
+				doRotate(c, seed(), t, p)
+				doRotAll(c, seed(), t)
+			}
+		}
+		for _, nn := range []int{4, 6, 9} {
+			t := tipRootedCat(nn)
+			doShuffle(c, false, seed(), t)
+			doShuffle(c, true, seed(), t)
+			doTips(c, 1+g.Intn(nn-1), seed(), t)
+			doRotAll(c, seed(), t)
+			doPruneCLI(c, "prunekeepcli", 3, seed(), tipRootedCat(nn+3))
+		}
+		// `gotree sample` without -n: the default of the option (one tree), with and without --replace
+		for _, nn := range []int{1, 3, 6} {
+			doSampleCmd(c, "newick", defaultK, false, seed(), nn, -1, true)
+			doSampleCmd(c, "newick", defaultK, true, seed(), nn, -1, true)
+		}
+		// the seed itself: absent / -1 = the clock; 0, negative and positive values are seeds as they are
+		for _, fl := range []string{"-", "-1", "0", "-2", "1", strconv.FormatInt(c.Seed*7+3, 10)} {
+			doSeedCmd(c, fl)
 		}
 	}
 }
